@@ -252,8 +252,8 @@ def c09(rng, count):
     g = 0
     while len(out) < count:
         g += 1
-        mode = rng.choice("ffcbl")
-        n = rng.randint(1, 5)
+        mode = rng.choice("ffcbbl")
+        n = rng.randint(1, 9) if mode == "b" else rng.randint(1, 5)
         bs = [_sbound(rng, n) for _ in range(rng.randint(1, 3))]
         bs2 = [_mirror(rng, b, n) for b in bs]
         if bs2 == bs:
@@ -283,6 +283,9 @@ def c09(rng, count):
         for role, bb in (("orig", bs), ("mirrored", bs2)):
             argv = ["-" + mode, ",".join(_render(b) for b in bb)] + extra
             out.append(Case(argv, data, tags={"grp": g, "role": role, "n": n}))
+            if role == "orig" and len(data) > 1 and rng.random() < 0.5:
+                # the same request with stdin arriving in pieces (read shim)
+                out.append(Case(argv, data, seg=_rand_seg(rng, len(data)), tags={"grp": g, "role": "orig_seg", "n": n}))
     return out
 
 
@@ -600,7 +603,24 @@ def c07(rng, count):
         if rng.random() < 0.08: argv.append("-m")
         pool = ["a", "b", " ", "é", "ß", "€", "漢", "𝄞", "😀", "é", "́", "-", ".", "_", "1", "\t", "\r", "‍", " "]
         recs = []
-        for _ in range(rng.randint(0, 3)):
+        if rng.random() < 0.25:
+            # a history of records of one byte length but different character structure (and empty ones
+            # in between): state kept from one record to the next would be indistinguishable by length
+            L = rng.randint(1, 8)
+            for _ in range(rng.randint(2, 5)):
+                if rng.random() < 0.15:
+                    recs.append("")
+                    continue
+                if rng.random() < 0.35:
+                    recs.append("".join(rng.choice("abxyz\"\\ 1") for _ in range(L)))
+                    continue
+                r, left = "", L
+                while left > 0:
+                    w = rng.choice([x for x in (1, 1, 2, 2, 3, 4) if x <= left])
+                    r += {1: rng.choice("abq\"\\"), 2: rng.choice("éßñ"), 3: rng.choice("€漢‍"), 4: rng.choice("𝄞😀")}[w]
+                    left -= w
+                recs.append(r)
+        for _ in range(rng.randint(0, 3) if not recs else 0):
             k = rng.choice([0, 1, 1, 2, 3, 4, 6])
             recs.append("".join((rand_scalar(rng) if rng.random() < 0.3 else rng.choice(pool)) for _ in range(k)).replace(eol, ""))
         data = eol.join(recs) + (eol if recs and rng.random() < 0.7 else "")
@@ -708,6 +728,15 @@ WEIRD = ["", " ", "{", "}", "{{", "}}", "{}", "{1", "1}", "{1}}", "{1}}}", "{{1}
          "{1}\\n", "\\", "a", "1a", "--", "-", "+", "1:+2", "{1,2=x}", "{1=a}b}", "\t"]
 
 
+REGEX_ADV = (["(?x)a#", "(?x) , # comma", "(?x)a # c\n", "(?x)#", "a#", "(?i)a", "(?s).", "(?m)^", "(?m)$", "(?U)a+", "(?-u)a", "(?-u:\\xff)",
+              "\\Qa", "a\\", "[a", "a)", "(a", "(?P<n>a)", "(?P<n>a)|(?P<n>b)", "(?<n>-)", "\\1", "(a)\\1", "a{2,1}", "a{,2}", "a**", "+", "?", "*a", "|", "a||b",
+              "()", "(?:)", "^", "$", "\\b", "\\B", "a*", "-*", "(-*)*", "(a|)+", "\\z", "\\A", "(?x)", "\\pL", "\\p{Greek}", "\\p{Nope}", "[[:alpha:]]",
+              "[^-]", ".", "\\n", "\\x00", "\\u{10FFFF}", "\\u{110000}", "a{1000}", "(?:a{1000}){20}", "\\w{300}", "(\\w{60}){60}", "\\pL{2000}",
+              "a{4294967296}", "a{99999999999999999999}"]
+             + ["(" * k + "-" + ")" * k for k in (50, 200, 247, 248, 249, 250, 251, 300)]
+             + ["(?:" * k + "-" + ")" * k for k in (248, 249, 250)])
+
+
 def c12(rng, count, exhaustive_len=3):
     """adversarial argv x stdin; every case must end with status 0 or 1"""
     out = []
@@ -745,6 +774,12 @@ def c12(rng, count, exhaustive_len=3):
         if rng.random() < 0.05: argv.append(rng.choice(["--fallback-oob", "--fallback-oob=", "-f", "--bogus", "-x", "-d"]))
         rng.shuffle(argv) if rng.random() < 0.1 else None
         out.append(Case(argv, rng.choice(stdin_pool)))
+    # regexes that are fine (or not) on their own but fragile once the program embeds them in a larger
+    # pattern, compiles a variant of them, or repeats them: verbose-mode comments, flags, nesting close to
+    # the parser's limit, counted repetitions close to the size limit, empty-matching patterns
+    for re_ in REGEX_ADV:
+        for ctx in ([], ["-g"], ["-p", "-r", "/"], ["-t", "b"], ["-j", "-r", "x"], ["--json"], ["-g", "-t", "l", "-s"]):
+            out.append(Case(["-e", re_, "-f", rng.choice(["1,2", "2:", "-1"])] + ctx, rng.choice([b"a-b,c\n", b"a , b#c\n-\n", b""])))
     # the same kind of argument vectors in pico-args' other spellings, with no value excluded (values that
     # start with '-', hold '=' or quotes, empty values): compared with the model of pico-args
     n_sp = max(200, count // 6)
@@ -811,6 +846,18 @@ def c18(rng, count, maxlen=3):
     out = []
     for s in c18_strings(maxlen):
         out.append(Case([], s.encode(), entry="bounds"))
+    # "non-zero 32-bit integers": magnitudes around every width the arithmetic could care about, both
+    # signs, alone, open and as both sides of a range (parsed structure through the library, and the binary)
+    mags = [1, 2, 7, 46340, 46341, 50000, 65535, 65536, 2147483646, 2147483647, 2147483648, 4294967295, 4294967296, 99999999999]
+    sides = [str(m) for m in mags] + ["-" + str(m) for m in mags]
+    for a in sides:
+        for t in (a, a + ":", ":" + a, a + "=fb", "{" + a + "}"):
+            out.append(Case([], t.encode(), entry="bounds"))
+        for b in sides:
+            out.append(Case([], (a + ":" + b).encode(), entry="bounds"))
+            if rng.random() < 0.15:
+                mode = rng.choice(["-f", "-c", "-b", "-l"])
+                out.append(Case([mode, rng.choice([a + ":" + b, "x{" + a + ":" + b + "}"]), "--fallback-oob", "G"], b"a-b-c\nd-e-f\n"))
     # longer random strings from the same alphabet, biased towards well-formed pieces
     toks = ["1", "2", "-1", "10", "1:2", "2:", ":3", "-3:-1", "=x", "=", ",", "{", "}", "{{", "}}", "\\n", "\\t", "\\\\", "a", " ", "é", "+2", "0", ":", "1:2=a:b", "{1}", "{2,3}", "{1=x}",
             "\\", "n", "t", "{1}", "{2}", "{1}", "\\{{", "\\}}"]
